@@ -172,6 +172,15 @@ func checkGffReader(c *Ctx, parse *ssa.Function) {
 						other = true
 					}
 				}
+				// the column's own text, read as a number and written out again: the spelling changes
+				// ("0.50" -> "0.5", "1e-5" -> "1e-05") although the column is kept as text
+				if !other && cl.rule == "FIELDMAP" && strings.Contains(l.String(), own) && l.Op == "call" &&
+					(strings.HasPrefix(l.Name, "strconv.Format") || l.Name == "strconv.Itoa" || strings.HasPrefix(l.Name, "fmt.Sprint")) &&
+					l.contains(func(x *Term) bool {
+						return x.Op == "call" && (strings.HasPrefix(x.Name, "strconv.Parse") || x.Name == "strconv.Atoi")
+					}) {
+					st, why = broken, "may hold "+short(l.String())+": the text of column "+fmt.Sprint(k+1)+" is parsed as a number and formatted again, so a value is re-spelled (0.50 becomes 0.5, 1e-5 becomes 1e-05) instead of being kept as written"
+				}
 				if !other {
 					continue
 				}
